@@ -133,10 +133,16 @@ structure ScanOK (e e' : Env) (tr : Tr) : Prop where
   cl : OnlyCL tr
   kle : ∀ d, d ∈ e.known → d ∈ e'.known
   ld : e'.loaded = e.loaded
+  kfrom : ∀ d, d ∈ e'.known → d ∈ e.known ∨ LEv.ev (.canLoad 0 d true) ∈ tr   -- what became known was seen in the trace
 
-theorem ScanOK.refl (e : Env) : ScanOK e e [] := ⟨onlyCL_nil, fun _ h => h, rfl⟩
+theorem ScanOK.refl (e : Env) : ScanOK e e [] := ⟨onlyCL_nil, fun _ h => h, rfl, fun _ h => Or.inl h⟩
 theorem ScanOK.trans {e1 e2 e3 : Env} {a b : Tr} (h1 : ScanOK e1 e2 a) (h2 : ScanOK e2 e3 b) : ScanOK e1 e3 (a ++ b) :=
-  ⟨onlyCL_append h1.cl h2.cl, fun d h => h2.kle d (h1.kle d h), by rw [h2.ld, h1.ld]⟩
+  ⟨onlyCL_append h1.cl h2.cl, fun d h => h2.kle d (h1.kle d h), by rw [h2.ld, h1.ld], fun d h => by
+    rcases h2.kfrom d h with h' | h'
+    · rcases h1.kfrom d h' with h'' | h''
+      · exact Or.inl h''
+      · exact Or.inr (by simp [h''])
+    · exact Or.inr (by simp [h'])⟩
 
 theorem pop_known (e : Env) : e.pop.2.known = e.known ∧ e.pop.2.loaded = e.loaded ∧ e.pop.2.held = e.held ∧ e.pop.2.nores = e.nores := by
   unfold Env.pop; split <;> simp
@@ -149,10 +155,10 @@ theorem canLoadQ_tr (e : Env) (t : Task) : (canLoadQ e t).2.2 = [.ev (.canLoad 0
     · simp only []; split <;> rfl
 
 theorem canLoadQ_scanOK (e : Env) (t : Task) : ScanOK e (canLoadQ e t).2.1 (canLoadQ e t).2.2 := by
-  refine ⟨?_, ?_, ?_⟩
+  have hp := pop_known e
+  refine ⟨?_, ?_, ?_, ?_⟩
   · rw [canLoadQ_tr]; intro x hx; simp at hx; subst hx; rfl
   · intro d hd
-    have hp := pop_known e
     unfold canLoadQ; split
     · exact hd
     · split
@@ -160,14 +166,26 @@ theorem canLoadQ_scanOK (e : Env) (t : Task) : ScanOK e (canLoadQ e t).2.1 (canL
       · simp only []; split
         · simp [hp.1, hd]
         · split <;> simp [hp.1, hd]
-  · have hp := pop_known e
-    unfold canLoadQ; split
+  · unfold canLoadQ; split
     · rfl
     · split
       · rfl
       · simp only []; split
         · simp [hp.2.1]
         · split <;> simp [hp.2.1]
+  · intro d
+    by_cases hk : t ∈ e.known
+    · simp [canLoadQ, hk] <;> (intro h; exact Or.inl h)
+    · by_cases hn : t ∈ e.nores ∧ t ∈ e.held
+      · simp [canLoadQ, hk, hn] <;> (intro h; exact Or.inl h)
+      · by_cases ha : e.pop.1 % 2 = 1
+        · simp [canLoadQ, hk, hn, ha, hp.1]
+          intro h; rcases h with rfl | h
+          · exact Or.inr rfl
+          · exact Or.inl h
+        · simp only [canLoadQ, hk, hn, ha]
+          simp only [List.contains_iff_mem, hk, hn, Bool.false_eq_true, if_false, Bool.and_eq_true, decide_eq_true_eq]
+          split <;> simp [hp.1]
 
 theorem canLoadQ_true_known (e : Env) (t : Task) (h : (canLoadQ e t).1 = true) : t ∈ (canLoadQ e t).2.1.known := by
   by_cases hk : t ∈ e.known
